@@ -33,7 +33,7 @@ def encode(sc):
     w.u32(sc["nmsgs"]).u8(sc["flags_fixed"]).u8(sc["flags_rand"]).u8(sc["dst_mode"]).u8(sc["dst_k"])
     w.u8(sc["pass_src"]).u8(sc["bind"])
     w.u16(sc["perturb"]).u16(sc["sleep_us"]).u64(sc["point_mask"])
-    w.u8(sc["gate"]).u8(sc["gate_dst"]).u8(sc.get("park_in_stop", 0))
+    w.u8(sc["gate"]).u8(sc["gate_dst"]).u8(sc.get("park_in_stop", 0)).u8(sc.get("shutdown_behind_gate", 0))
     w.u8(sc["wkind"]).u16(len(sc["wpos"]))
     for k in sc["wpos"]:
         w.u32(k)
@@ -87,6 +87,11 @@ def gen_scenarios(tier, seed):
         pool = rng.choice([1, 2, 4, 8])
         out.append(base(rng, family="stopping", pool=pool, start_mode=rng.choice([0, 0, 1]) if pool > 1 else 0, n_ext=1, nmsgs=50, flags_rand=7,
                         dst_mode=0, park_in_stop=1))
+    # C3: shutdown requested while a busy worker still has accepted messages queued behind the stop message
+    for i in range(4 * scale):
+        pool = rng.choice([1, 2, 4])
+        out.append(base(rng, family="shutdown-behind-gate", pool=pool, n_ext=1, nmsgs=rng.choice([5, 60]), flags_fixed=0, dst_mode=4, dst_k=0,
+                        gate=1, gate_dst=0, shutdown_behind_gate=1))
     # D: sends racing with thread start (STARTING)
     for i in range(8 * scale):
         pool = rng.choice([1, 2, 4, 16])
